@@ -135,6 +135,8 @@ impl<'de> MapAccess<'de> for MockMap {
 	fn size_hint(&self) -> Option<usize> { Some(self.remaining as usize) }
 }
 
+// the length hint as it is logged on both sides: the serializer must be given EXACTLY the deserializer's size_hint (rmp_serde writes it as the array / map header)
+pub(super) fn hint_code(hint: Option<usize>) -> u64 { match hint { Some(h) => h as u64, None => u64::MAX } }
 pub(super) struct MockSer;
 pub(super) struct MockCompound { is_map: bool }
 pub(super) fn maybe_fail() -> Result<(), SerErr> { if kani::any() { Err(ser_fail()) } else { Ok(()) } }
@@ -157,11 +159,11 @@ impl Serializer for MockSer {
 	fn serialize_unit_variant(self, _: &'static str, _: u32, _: &'static str) -> Result<(), SerErr> { unreachable!() }
 	fn serialize_newtype_struct<T: ?Sized + Serialize>(self, _: &'static str, _: &T) -> Result<(), SerErr> { unreachable!() }
 	fn serialize_newtype_variant<T: ?Sized + Serialize>(self, _: &'static str, _: u32, _: &'static str, _: &T) -> Result<(), SerErr> { unreachable!() }
-	fn serialize_seq(self, hint: Option<usize>) -> Result<MockCompound, SerErr> { maybe_fail()?; ser_log(E_SEQ, hint.unwrap_or(99) as u64); Ok(MockCompound { is_map: false }) }
+	fn serialize_seq(self, hint: Option<usize>) -> Result<MockCompound, SerErr> { maybe_fail()?; ser_log(E_SEQ, hint_code(hint)); Ok(MockCompound { is_map: false }) }
 	fn serialize_tuple(self, _: usize) -> Result<Self::SerializeTuple, SerErr> { unreachable!() }
 	fn serialize_tuple_struct(self, _: &'static str, _: usize) -> Result<Self::SerializeTupleStruct, SerErr> { unreachable!() }
 	fn serialize_tuple_variant(self, _: &'static str, _: u32, _: &'static str, _: usize) -> Result<Self::SerializeTupleVariant, SerErr> { unreachable!() }
-	fn serialize_map(self, hint: Option<usize>) -> Result<MockCompound, SerErr> { maybe_fail()?; ser_log(E_MAP, hint.unwrap_or(99) as u64); Ok(MockCompound { is_map: true }) }
+	fn serialize_map(self, hint: Option<usize>) -> Result<MockCompound, SerErr> { maybe_fail()?; ser_log(E_MAP, hint_code(hint)); Ok(MockCompound { is_map: true }) }
 	fn serialize_struct(self, _: &'static str, _: usize) -> Result<Self::SerializeStruct, SerErr> { unreachable!() }
 	fn serialize_struct_variant(self, _: &'static str, _: u32, _: &'static str, _: usize) -> Result<Self::SerializeStructVariant, SerErr> { unreachable!() }
 }
